@@ -69,4 +69,9 @@ def run (m : BM K V) : List (BMOp K V) → List (BMObs K V)
   | [] => []
   | op :: ops => (step m op).2 :: run (step m op).1 ops
 
+/-- the state after an operation sequence -/
+def after (m : BM K V) : List (BMOp K V) → BM K V
+  | [] => m
+  | op :: ops => after (step m op).1 ops
+
 end Verif.Model.DS.BiMap
